@@ -87,6 +87,7 @@ impl AckModel {
         ev.push(Ev::PeerStrayPingAck);
         ev.push(Ev::PeerAckSettings);
         ev.push(Ev::PeerData(50));
+        ev.push(Ev::PeerData(0));
         ev.push(Ev::PeerWu(40_000));
         ev.push(Ev::AppPing);
         ev.push(Ev::AppSetWindow(10));
@@ -232,7 +233,7 @@ impl Model for AckModel {
             Ev::PeerData(n) => {
                 // a legal peer stays inside the windows it has been granted (as it sees them: values it has acknowledged)
                 let pv = crate::c03::peer_view(t);
-                w.stream_open && (*n as i64) <= pv.vs(1) && (*n as i64) <= pv.v0()
+                w.stream_open && (*n == 0 || ((*n as i64) <= pv.vs(1) && (*n as i64) <= pv.v0()))
             }
             Ev::PeerWu(_) => true,
             Ev::AppPing => w.pp.is_some() && !w.user_ping_outstanding,
@@ -383,9 +384,9 @@ impl Model for AckModel {
         )
     }
     fn teardown(&self, mut t: T2, w: World) -> Vec<String> {
-        let mut panics = vec![];
-        guarded(&mut panics, "drop", move || drop(w));
-        t.panics.extend(panics);
+        let mut panics = std::mem::take(&mut t.panics);
+        safe_drop(&mut panics, "PingPong", w.pp);
+        t.panics = panics;
         t.finish()
     }
     fn counters(&self, t: &T2, _w: &World) -> Vec<(&'static str, u64)> {
